@@ -1,7 +1,8 @@
 //! Engine `preproc` (C06): the real preprocessor through `slicec::verif_hooks::preprocess`, and the real
 //! `parse_files` (one clone of the symbol set per file) through `slicec::compile_from_strings`.
 //!
-//!   pp    <fam> <hex text> <symbols|-> <expected>         expected = `ok <row:col:hex(content);…|-> <symbols|->` | `reject`
+//!   pp    <fam> <hex text> <symbols|-> <expected>         expected = `ok <row:col:hex(content);…|-> <symbols|->` |
+//!                                                          `reject <row>:<col>[-<row>:<col>];…` (start[-end] of every diagnostic, report order)
 //!   multi <fam> <hex file1>|<hex file2>… <symbols|-> <expected per file joined by |>
 //!         fam `hook…`    : one hook call per file, observation per file as for `pp`
 //!         fam `compile…` : one `compile_from_strings` call for all files; every source line of the files is a probe
@@ -9,7 +10,8 @@
 //!
 //! Oracle on the implementation alone: never a panic; every returned block's content is the text found in the
 //! input at the block's start location (recomputed by scanning the input), blocks are in order and disjoint;
-//! a rejection carries at least one diagnostic and only `E002` (syntax error) diagnostics.
+//! a rejection carries at least one diagnostic and only `E002` (syntax error) diagnostics, each located inside the text
+//! (1-based, row <= number of rows + 1, column <= length of the row in CHARACTERS + 1) with start <= end.
 
 use crate::codec::CaseResult;
 use crate::dynval::{hex, unhex};
@@ -58,7 +60,30 @@ fn hook_obs(text: &str, syms: &[String]) -> HookObs {
             } else if let Some((code, _)) = diags.iter().find(|(code, _)| code != "E002") {
                 oracle = Some(format!("rejection reported as {code}, not as a syntax error (E002)"));
             }
-            HookObs { obs: "reject".into(), oracle, accepted: false, blocks: 0 }
+            // every diagnostic is located inside the text: rows/columns counted in CHARACTERS from 1, the position one
+            // past the last character of a row (the '\n' or the end of the text) included; start <= end
+            let rows: Vec<usize> = text.split('\n').map(|l| l.chars().count()).collect();
+            let inside = |r: usize, c: usize| r >= 1 && c >= 1 && r <= rows.len() + 1 && c <= rows.get(r - 1).copied().unwrap_or(0) + 1;
+            let mut locs = Vec::new();
+            for (_, span) in &diags {
+                match span {
+                    None => {
+                        if oracle.is_none() { oracle = Some("a syntax error of the preprocessor carries no location".to_string()); }
+                        locs.push("?".to_string());
+                    }
+                    Some((sr, sc, er, ec)) => {
+                        if oracle.is_none() {
+                            if !inside(*sr, *sc) || !inside(*er, *ec) {
+                                oracle = Some(format!("diagnostic located at {sr}:{sc}-{er}:{ec}, which is not a position of the text (rows and columns in characters)"));
+                            } else if (*er, *ec) < (*sr, *sc) {
+                                oracle = Some(format!("diagnostic located at {sr}:{sc}-{er}:{ec}: the end precedes the start"));
+                            }
+                        }
+                        locs.push(if (sr, sc) == (er, ec) { format!("{sr}:{sc}") } else { format!("{sr}:{sc}-{er}:{ec}") });
+                    }
+                }
+            }
+            HookObs { obs: format!("reject {}", locs.join(";")), oracle, accepted: false, blocks: 0 }
         }
         Ok(Ok((blocks, mut defined))) => {
             defined.sort();
